@@ -1754,4 +1754,226 @@ theorem iter_stream_eq_canon (syn : Syntax) (a b : Str)
   simp only [Iter.read] at this
   rw [← this, List.reverse_reverse]
 
+/-! ### joining a relative string onto an absolute base path -/
+
+/-- with no `..` left over, the component stack is built on top of whatever stack it starts from -/
+theorem foldr_step_append (rooted : Bool) : ∀ (M : List Str) (st : List Str), esc 0 M = 0 →
+    M.foldr (fun c s => canonStep rooted s c) st = rnorm 0 M ++ st := by
+  intro M
+  induction M with
+  | nil => intro st _; simp [rnorm]
+  | cons c M ih =>
+    intro st h
+    simp only [List.foldr_cons]
+    by_cases h1 : ignorable c = true
+    · have h' : esc 0 M = 0 := by simpa [esc, h1] using h
+      rw [ih st h']
+      have hs : ∀ s, canonStep rooted s c = s := by
+        intro s
+        simp only [ignorable, Bool.or_eq_true, beq_iff_eq] at h1
+        rcases h1 with e | e <;> subst e <;> simp [canonStep]
+      rw [hs]; simp [rnorm, h1]
+    · have h1' : ignorable c = false := by simpa using h1
+      by_cases h2 : (c == dotdot) = true
+      · have h' : esc 1 M = 0 := by simpa [esc, h1', h2] using h
+        have h0 : esc 0 M = 0 := by have := esc_mono M 0 1 (by omega); omega
+        rw [ih st h0]
+        have hf := fold_eq_rnorm true M 0 (Or.inl rfl)
+        have hf1 := (fold_eq_rnorm true M 1 (Or.inl rfl)).1
+        simp only [List.drop_zero] at hf
+        rw [← hf.1] at hf1
+        cases hr : rnorm 0 M with
+        | nil =>
+          have := esc_ge_of_rnorm_nil M 1 hr
+          omega
+        | cons x r =>
+          have hx : x ≠ dotdot := by
+            have := hf.2 x (by rw [← hf.1, hr]; simp)
+            exact this
+          rw [hr] at hf1
+          simp only [List.drop_one, List.tail_cons] at hf1
+          have hs : canonStep rooted (x :: r ++ st) c = r ++ st := by
+            simp only [ignorable, Bool.or_eq_false_iff] at h1'
+            simp [canonStep, h1'.1, h1'.2, h2, hx]
+          simp only [List.cons_append] at hs ⊢
+          rw [hs]
+          simp [rnorm, h1', h2, hf1]
+      · have h2' : (c == dotdot) = false := by simpa using h2
+        have h' : esc 0 M = 0 := by simpa [esc, h1', h2'] using h
+        rw [ih st h']
+        have hs : ∀ s, canonStep rooted s c = c :: s := by
+          intro s
+          simp only [ignorable, Bool.or_eq_false_iff] at h1'
+          simp [canonStep, h1'.1, h1'.2, h2']
+        rw [hs]; simp [rnorm, h1', h2']
+
+theorem splitSlash_append_sep (s t : Str) : splitSlash (s ++ '/' :: t) = splitSlash s ++ splitSlash t := by
+  induction s with
+  | nil => simp [splitSlash]
+  | cons d r ih =>
+    simp only [List.cons_append, splitSlash]
+    by_cases hd' : d = '/'
+    · subst hd'; simp [ih]
+    · have hb : (d == '/') = false := by simp [hd']
+      simp only [hb, Bool.false_eq_true, if_false, ih]
+      cases hs : splitSlash r with
+      | nil => exact absurd hs (splitSlash_ne_nil r)
+      | cons h t' => simp
+
+theorem joinSlash_append (A B : List Str) (hA : A ≠ []) (hB : B ≠ []) :
+    joinSlash (A ++ B) = joinSlash A ++ '/' :: joinSlash B := by
+  induction A with
+  | nil => exact absurd rfl hA
+  | cons a A ih =>
+    cases A with
+    | nil =>
+      cases B with
+      | nil => exact absurd rfl hB
+      | cons b B' => simp [joinSlash_cons_cons, joinSlash_single]
+    | cons a2 A' =>
+      simp only [List.cons_append, joinSlash_cons_cons] at ih ⊢
+      rw [ih (by simp)]
+      simp
+
+/-- joining a relative string without escaping `..` onto a rooted one: the canonical component list is the concatenation -/
+theorem canonComps_append (CB CP : List Str) (h : esc 0 CP.reverse = 0) :
+    canonComps true (CB ++ CP) = canonComps true CB ++ canonComps false CP := by
+  have h1 : canonComps false CP = (rnorm 0 CP.reverse).reverse := canonComps_eq_rnorm false CP (Or.inr h)
+  rw [h1]
+  simp only [canonComps, List.foldl_append]
+  have := foldr_step_append true CP.reverse (CB.foldl (canonStep true) []) h
+  rw [List.foldr_reverse] at this
+  rw [this]
+  simp
+
+theorem rootLen_le (syn : Syntax) (s : Str) : rootLen syn s ≤ s.length := by
+  have hnul : ∀ sy, issep sy NUL = false := by intro sy; cases sy <;> decide
+  have n1 : NUL ≠ ':' := by decide
+  have n2 : NUL ≠ '.' := by decide
+  have n3 : NUL ≠ '?' := by decide
+  have n4 : isdrive NUL = false := by decide
+  rcases s with _ | ⟨a, _ | ⟨b, _ | ⟨c, _ | ⟨d, r⟩⟩⟩⟩ <;>
+    simp only [rootLen, cat, List.getD_cons_zero, List.getD_cons_succ, List.getD_nil, List.length_cons, List.length_nil, hnul] <;>
+    (repeat' split) <;> simp_all <;> omega
+
+theorem one_le_ite {c : Prop} [Decidable c] {a b : Nat} (ha : 1 ≤ a) (hb : 1 ≤ b) : 1 ≤ (if c then a else b) := by
+  split <;> assumption
+
+theorem rootLen_pos (syn : Syntax) (r : Str) : 1 ≤ rootLen syn ('/' :: r) := by
+  have h : issep syn '/' = true := by cases syn <;> decide
+  simp only [rootLen, cat, List.getD_cons_zero, h, if_true]
+  exact one_le_ite (one_le_ite (one_le_ite (by omega) (by omega)) (by omega)) (by omega)
+
+theorem mapChar_slash (syn : Syntax) : mapChar syn '/' = '/' := by cases syn <;> decide
+
+
+theorem cstr_nil : cstr [] = [] := rfl
+
+theorem rawOf_single (syn : Syntax) (q : Str) :
+    rawOf syn q [] = (if (cstr q).isEmpty then 0 else rootLen syn (cstr q), (cstr q).map (mapChar syn)) := by
+  unfold rawOf
+  rw [cstr_nil]
+  generalize cstr q = Q
+  cases Q <;> simp [joinRaw]
+
+theorem rawOf_pair (syn : Syntax) (a b : Str) (ha : cstr a ≠ []) :
+    rawOf syn a b = (rootLen syn (cstr a),
+      (if (cstr b).isEmpty then cstr a else cstr a ++ '/' :: cstr b).map (mapChar syn)) := by
+  unfold rawOf
+  generalize cstr a = A at *
+  generalize cstr b = B
+  cases A with
+  | nil => exact absurd rfl ha
+  | cons x A' => cases B <;> simp [joinRaw]
+
+theorem canonOf_nil_left (syn : Syntax) (p : Str) : canonOf syn [] p = canonOf syn p [] := by
+  unfold canonOf rawOf
+  rw [cstr_nil]
+  generalize cstr p = Q
+  cases Q <;> simp [joinRaw]
+
+theorem canon_zero_nil : canon 0 [] = [] := by
+  simp [canon, splitSlash, canonComps, canonStep, joinSlash]
+
+/-- a relative string (no `..` above its start) appended behind a rooted one -/
+theorem canon_join_core (rB : Nat) (Bm Qm : Str) (hpos : 1 ≤ rB) (hlen : rB ≤ Bm.length)
+    (hhead : Bm.head? = some '/') (hclosed : (Bm.take rB).getLast? = some '/')
+    (hesc : esc 0 (splitSlash Qm).reverse = 0) :
+    ∃ pre, canon rB (Bm ++ '/' :: Qm) = pre ++ canon 0 Qm ∧
+      (pre.getLast? = some '/' ∨ (canon 0 Qm = [] ∧ (canon rB (Bm ++ '/' :: Qm)).head? = some '/')) := by
+  have htake : (Bm ++ '/' :: Qm).take rB = Bm.take rB := List.take_append_of_le_length hlen
+  have hdrop : (Bm ++ '/' :: Qm).drop rB = Bm.drop rB ++ '/' :: Qm := List.drop_append_of_le_length hlen
+  have hdec : decide (rB > 0) = true := by simp; omega
+  have hdec0 : decide (0 > 0) = false := by simp
+  simp only [canon, htake, hdrop, splitSlash_append_sep, hdec, hdec0, List.take_zero, List.drop_zero, List.nil_append]
+  rw [canonComps_append _ _ hesc]
+  generalize canonComps true (splitSlash (Bm.drop rB)) = SB
+  generalize canonComps false (splitSlash Qm) = PC
+  cases PC with
+  | nil =>
+    refine ⟨Bm.take rB ++ joinSlash (SB ++ []), by simp [joinSlash], Or.inr ⟨by simp [joinSlash], ?_⟩⟩
+    cases Bm with
+    | nil => simp at hhead
+    | cons x Bm' =>
+      have hx : x = '/' := by simpa using hhead
+      subst hx
+      have : rB = (rB - 1) + 1 := by omega
+      rw [this]
+      simp
+  | cons c PC' =>
+    cases SB with
+    | nil => exact ⟨Bm.take rB, by simp, Or.inl hclosed⟩
+    | cons b SB' =>
+      refine ⟨Bm.take rB ++ joinSlash (b :: SB') ++ ['/'], ?_, Or.inl (by simp)⟩
+      rw [joinSlash_append _ _ (by simp) (by simp)]
+      simp
+
+/-- a relative string (no root of its own, no `..` above its start) joined onto an absolute base path: the canonical
+    form ends with the canonical form of the relative string, behind a separator -/
+theorem canonOf_join (syn : Syntax) (base p : Str) (hb : isAbsolute base = true) (hr : rootLen syn (cstr p) = 0)
+    (hdp : CanonDomain (rawOf syn p []).1 (rawOf syn p []).2 = true)
+    (hdx : CanonDomain (rawOf syn base p).1 (rawOf syn base p).2 = true) :
+    ∃ pre, canonOf syn base p = pre ++ canonOf syn p [] ∧
+      (pre.getLast? = some '/' ∨ (canonOf syn p [] = [] ∧ (canonOf syn base p).head? = some '/')) := by
+  obtain ⟨B', hB⟩ : ∃ B', cstr base = '/' :: B' := by
+    cases base with
+    | nil => simp [isAbsolute] at hb
+    | cons c r =>
+      have hc : c = '/' := by simpa [isAbsolute] using hb
+      subst hc
+      exact ⟨cstr r, by simp [cstr, List.takeWhile_cons, NUL]⟩
+  have hBne : cstr base ≠ [] := by rw [hB]; simp
+  have hrB := rootLen_pos syn B'
+  have hrBle := rootLen_le syn ('/' :: B')
+  unfold canonOf
+  rw [rawOf_pair syn base p hBne, hB] at hdx
+  rw [rawOf_single syn p] at hdp
+  rw [rawOf_pair syn base p hBne, rawOf_single syn p, hB]
+  generalize hrB' : rootLen syn ('/' :: B') = rB at *
+  by_cases hQ : cstr p = []
+  · simp only [hQ, List.isEmpty_nil, if_true, List.map_nil, canon_zero_nil, List.append_nil]
+    refine ⟨_, rfl, Or.inr ⟨trivial, ?_⟩⟩
+    simp only [canon, List.map_cons, mapChar_slash]
+    have : rB = (rB - 1) + 1 := by omega
+    rw [this]
+    simp
+  · have hQne : (cstr p).isEmpty = false := by cases h : cstr p <;> simp_all
+    simp only [hQne, Bool.false_eq_true, if_false, hr] at hdp hdx ⊢
+    have hmap : (('/' :: B') ++ '/' :: cstr p).map (mapChar syn) =
+        ('/' :: B').map (mapChar syn) ++ '/' :: (cstr p).map (mapChar syn) := by simp [mapChar_slash]
+    rw [hmap] at hdx ⊢
+    simp only [CanonDomain, Bool.and_eq_true, decide_eq_true_eq, Bool.or_eq_true, Nat.lt_irrefl, decide_false,
+      Bool.false_or] at hdp hdx
+    have hlen : rB ≤ (('/' :: B').map (mapChar syn)).length := by simpa using hrBle
+    have hclosed : ((('/' :: B').map (mapChar syn)).take rB).getLast? = some '/' := by
+      have := hdx.1.2
+      simp only [closedRoot, Bool.or_eq_true, beq_iff_eq, List.take_append_of_le_length hlen] at this
+      rcases this with h | h
+      · omega
+      · exact h
+    have hesc : esc 0 (splitSlash ((cstr p).map (mapChar syn))).reverse = 0 := by
+      have := hdp.2.1
+      simpa [noEscape] using this
+    exact canon_join_core rB _ _ hrB hlen (by simp [mapChar_slash]) hclosed hesc
+
 end Cppcheck.PathCanon
